@@ -1,9 +1,16 @@
 package main
 
-// Translator for property C14: re-emits the index arithmetic and the selection / ordering predicates of
-// /repo/groupbalancer.go as Lean definitions (Gen/GroupBalancerSel.lean).  Props/C14.lean proves that the
-// model's predicates are these generated ones, so `lake build` re-checks the model against the source text on
-// every run.  Only parses (go/ast); never executes the code under test.
+// Translator for property C14: re-emits the index arithmetic, the selection / ordering predicates and a few
+// structural facts of /repo/groupbalancer.go (and of the leader glue in consumergroup.go) as Lean definitions
+// (Gen/GroupBalancerSel.lean).  Props/C14.lean proves that the model's predicates are these generated ones, so
+// `lake build` re-checks the model against the source text on every run.  Only parses (go/ast); never executes the
+// code under test.
+//
+// Identifiers are resolved to the OBJECT they denote (go/parser's scope resolution: ast.Ident.Obj), never compared
+// by spelling, and every local is replaced by its ROLE (index of the member loop, length of the slice the member loop
+// ranges over, element i of the slice being sorted, …) or, for a local with a single definition, by that definition
+// (inlined).  Renaming locals, introducing or removing such temporaries, or renaming the helper does not change the
+// output; using a different variable than the one a role requires does.
 //
 // Go `int` expressions over indices and lengths are rendered over `Nat` (all operands are non-negative and
 // products of an index and a length do not overflow int64 for real slices — recorded as an assumption).
@@ -42,35 +49,65 @@ func mergeVars(a, b []string) []string {
 	return out
 }
 
-// atomName renders identifiers, len(x), x[i].F as a Lean variable name.
-func atomName(e ast.Expr) (string, bool) {
-	switch x := e.(type) {
-	case *ast.Ident:
-		return x.Name, true
-	case *ast.CallExpr:
-		if id, ok := x.Fun.(*ast.Ident); ok && id.Name == "len" && len(x.Args) == 1 {
-			if n, ok := atomName(x.Args[0]); ok {
-				return "len_" + n, true
-			}
-		}
-	case *ast.SelectorExpr:
-		if n, ok := atomName(x.X); ok {
-			return n + "_" + x.Sel.Name, true
-		}
-	case *ast.IndexExpr:
-		n, ok1 := atomName(x.X)
-		i, ok2 := atomName(x.Index)
-		if ok1 && ok2 {
-			return n + "_" + i, true
-		}
-	}
-	return "", false
+// resolver maps objects to roles and inlines single-definition locals.
+type resolver struct {
+	role    map[*ast.Object]string   // the variable itself has a role (an index, a count, …)
+	lenRole map[*ast.Object]string   // len(variable) has a role
+	elems   map[*ast.Object]string   // variable[k].F is rendered <elems>_<role of k>_<F>
+	def     map[*ast.Object]ast.Expr // single `x := e` (never assigned again): inlined
+	depth   int
 }
 
-func toLean(e ast.Expr) (leanExpr, error) {
+func newResolver() *resolver {
+	return &resolver{role: map[*ast.Object]string{}, lenRole: map[*ast.Object]string{}, elems: map[*ast.Object]string{}, def: map[*ast.Object]ast.Expr{}}
+}
+
+// singleDefs records every local of the function that is defined once with := and never assigned again.
+func (r *resolver) singleDefs(fd *ast.FuncDecl) {
+	count := map[*ast.Object]int{}
+	defs := map[*ast.Object]ast.Expr{}
+	ast.Inspect(fd.Body, func(n ast.Node) bool {
+		switch s := n.(type) {
+		case *ast.AssignStmt:
+			for i, l := range s.Lhs {
+				if id, ok := l.(*ast.Ident); ok && id.Obj != nil {
+					count[id.Obj]++
+					if s.Tok == token.DEFINE && len(s.Lhs) == len(s.Rhs) {
+						defs[id.Obj] = s.Rhs[i]
+					}
+				}
+			}
+		case *ast.IncDecStmt:
+			if id, ok := s.X.(*ast.Ident); ok && id.Obj != nil {
+				count[id.Obj] += 2
+			}
+		case *ast.RangeStmt:
+			for _, e := range []ast.Expr{s.Key, s.Value} {
+				if id, ok := e.(*ast.Ident); ok && id.Obj != nil {
+					count[id.Obj] += 2 // assigned on every iteration: never inlined
+				}
+			}
+		}
+		return true
+	})
+	for o, c := range count {
+		if e, ok := defs[o]; ok && c == 1 {
+			r.def[o] = e
+		}
+	}
+}
+
+func objOf(e ast.Expr) *ast.Object {
+	if id, ok := e.(*ast.Ident); ok {
+		return id.Obj
+	}
+	return nil
+}
+
+func (r *resolver) toLean(e ast.Expr) (leanExpr, error) {
 	switch x := e.(type) {
 	case *ast.ParenExpr:
-		in, err := toLean(x.X)
+		in, err := r.toLean(x.X)
 		if err != nil {
 			return in, err
 		}
@@ -80,42 +117,80 @@ func toLean(e ast.Expr) (leanExpr, error) {
 			return leanExpr{x.Value, false, nil}, nil
 		}
 	case *ast.BinaryExpr:
-		l, err := toLean(x.X)
+		l, err := r.toLean(x.X)
 		if err != nil {
 			return l, err
 		}
-		r, err := toLean(x.Y)
+		rr, err := r.toLean(x.Y)
 		if err != nil {
-			return r, err
+			return rr, err
 		}
-		vars := mergeVars(l.vars, r.vars)
+		vars := mergeVars(l.vars, rr.vars)
 		switch x.Op {
 		case token.ADD, token.MUL, token.QUO, token.REM:
-			if l.isBool || r.isBool {
+			if l.isBool || rr.isBool {
 				return leanExpr{}, fmt.Errorf("arithmetic on a boolean")
 			}
-			return leanExpr{l.text + " " + x.Op.String() + " " + r.text, false, vars}, nil
+			return leanExpr{l.text + " " + x.Op.String() + " " + rr.text, false, vars}, nil
 		case token.LSS, token.LEQ, token.GTR, token.GEQ:
 			op := map[token.Token]string{token.LSS: "<", token.LEQ: "≤", token.GTR: ">", token.GEQ: "≥"}[x.Op]
-			return leanExpr{"decide (" + l.text + " " + op + " " + r.text + ")", true, vars}, nil
+			return leanExpr{"decide (" + l.text + " " + op + " " + rr.text + ")", true, vars}, nil
 		case token.EQL:
-			return leanExpr{"(" + l.text + " == " + r.text + ")", true, vars}, nil
+			return leanExpr{"(" + l.text + " == " + rr.text + ")", true, vars}, nil
 		case token.NEQ:
-			return leanExpr{"(" + l.text + " != " + r.text + ")", true, vars}, nil
+			return leanExpr{"(" + l.text + " != " + rr.text + ")", true, vars}, nil
 		case token.LAND, token.LOR:
-			if !l.isBool || !r.isBool {
+			if !l.isBool || !rr.isBool {
 				return leanExpr{}, fmt.Errorf("logical operator on a non-boolean")
 			}
 			op := "&&"
 			if x.Op == token.LOR {
 				op = "||"
 			}
-			return leanExpr{"(" + l.text + " " + op + " " + r.text + ")", true, vars}, nil
+			return leanExpr{"(" + l.text + " " + op + " " + rr.text + ")", true, vars}, nil
 		}
 		return leanExpr{}, fmt.Errorf("untranslated operator %s", x.Op)
-	}
-	if n, ok := atomName(e); ok {
-		return leanExpr{n, false, []string{n}}, nil
+	case *ast.Ident:
+		if x.Obj == nil {
+			return leanExpr{}, fmt.Errorf("identifier %s does not denote a local", x.Name)
+		}
+		if role, ok := r.role[x.Obj]; ok {
+			return leanExpr{role, false, []string{role}}, nil
+		}
+		if d, ok := r.def[x.Obj]; ok && r.depth < 16 {
+			r.depth++
+			in, err := r.toLean(d)
+			r.depth--
+			if err != nil {
+				return in, err
+			}
+			return leanExpr{"(" + in.text + ")", in.isBool, in.vars}, nil
+		}
+		return leanExpr{}, fmt.Errorf("local %s has no role and no single definition", x.Name)
+	case *ast.CallExpr:
+		if id, ok := x.Fun.(*ast.Ident); ok && id.Name == "len" && id.Obj == nil && len(x.Args) == 1 {
+			if o := objOf(x.Args[0]); o != nil {
+				if role, ok := r.lenRole[o]; ok {
+					return leanExpr{role, false, []string{role}}, nil
+				}
+			}
+			return leanExpr{}, fmt.Errorf("len of something without a role")
+		}
+	case *ast.SelectorExpr: // S[k].F
+		if ix, ok := x.X.(*ast.IndexExpr); ok {
+			so, ko := objOf(ix.X), objOf(ix.Index)
+			if so != nil && ko != nil {
+				base, ok1 := r.elems[so]
+				k, ok2 := r.role[ko]
+				if !ok1 {
+					base = "foreign" // an element of some OTHER slice than the one the role requires
+				}
+				if ok2 {
+					n := base + "_" + k + "_" + x.Sel.Name
+					return leanExpr{n, false, []string{n}}, nil
+				}
+			}
+		}
 	}
 	return leanExpr{}, fmt.Errorf("untranslated expression %T", e)
 }
@@ -144,171 +219,142 @@ func funcNamed(f *ast.File, recv, name string) *ast.FuncDecl {
 	return nil
 }
 
-// firstDefine returns the right-hand side of the first `name := expr` in the function.
-func firstDefine(fd *ast.FuncDecl, name string) ast.Expr {
-	var res ast.Expr
-	ast.Inspect(fd.Body, func(n ast.Node) bool {
-		if res != nil {
-			return false
+func paramObjs(fd *ast.FuncDecl) []*ast.Object {
+	var out []*ast.Object
+	for _, f := range fd.Type.Params.List {
+		for _, n := range f.Names {
+			out = append(out, n.Obj)
 		}
-		if a, ok := n.(*ast.AssignStmt); ok && a.Tok == token.DEFINE && len(a.Lhs) == 1 && len(a.Rhs) == 1 {
-			if id, ok := a.Lhs[0].(*ast.Ident); ok && id.Name == name {
-				res = a.Rhs[0]
-			}
-		}
-		return true
-	})
-	return res
+	}
+	return out
 }
 
-func mentions(e ast.Expr, name string) bool {
+// directRanges returns the range statements that are direct children of the block.
+func directRanges(b *ast.BlockStmt) []*ast.RangeStmt {
+	var out []*ast.RangeStmt
+	for _, s := range b.List {
+		if r, ok := s.(*ast.RangeStmt); ok {
+			out = append(out, r)
+		}
+	}
+	return out
+}
+
+func hasEarlyExit(n ast.Node) bool {
 	found := false
-	ast.Inspect(e, func(n ast.Node) bool {
-		if id, ok := n.(*ast.Ident); ok && id.Name == name {
+	ast.Inspect(n, func(x ast.Node) bool {
+		switch x.(type) {
+		case *ast.BranchStmt, *ast.ReturnStmt:
 			found = true
+		case *ast.FuncLit:
+			return false
 		}
 		return true
 	})
 	return found
 }
 
-// ifConds returns the conditions of all if statements of the function that mention `name`.
-func ifConds(fd *ast.FuncDecl, name string) []ast.Expr {
-	var res []ast.Expr
-	ast.Inspect(fd.Body, func(n ast.Node) bool {
-		if s, ok := n.(*ast.IfStmt); ok && s.Init == nil && mentions(s.Cond, name) {
-			res = append(res, s.Cond)
-		}
-		return true
-	})
-	return res
+func calls(e ast.Expr, fn string) bool {
+	c, ok := e.(*ast.CallExpr)
+	if !ok {
+		return false
+	}
+	id, ok := c.Fun.(*ast.Ident)
+	return ok && id.Name == fn
 }
 
-func extractGroupBalancer(repo, root string) error {
-	fset := token.NewFileSet()
-	f, err := parser.ParseFile(fset, filepath.Join(repo, "groupbalancer.go"), nil, 0)
+// selectionCond analyses `AssignGroups` of Range / RoundRobin: for topic, SUB := range byTopic { PARTS := findPartitions(…);
+// for MI, _ := range SUB { for PI, PV := range PARTS { if COND { append } } } } and returns COND over the roles
+// memberIndex, partitionIndex, memberCount (= len(SUB)), partitionCount (= len(PARTS)), partitionValue (= PV).
+func selectionCond(fd *ast.FuncDecl) (leanExpr, bool, error) {
+	outer := directRanges(fd.Body)
+	if len(outer) != 1 {
+		return leanExpr{}, false, fmt.Errorf("%s: expected exactly one top-level range loop", fd.Name.Name)
+	}
+	l1 := outer[0]
+	if o := objOf(l1.X); o == nil || o.Decl == nil {
+		return leanExpr{}, false, fmt.Errorf("%s: the outer loop does not range over a local", fd.Name.Name)
+	} else if a, ok := o.Decl.(*ast.AssignStmt); !ok || len(a.Rhs) != 1 || !calls(a.Rhs[0], "findMembersByTopic") {
+		return leanExpr{}, false, fmt.Errorf("%s: the outer loop does not range over findMembersByTopic(…)", fd.Name.Name)
+	}
+	sub := objOf(l1.Value)
+	var l2 *ast.RangeStmt
+	for _, r := range directRanges(l1.Body) {
+		if sub != nil && objOf(r.X) == sub {
+			l2 = r
+		}
+	}
+	if l2 == nil {
+		return leanExpr{}, false, fmt.Errorf("%s: no loop over the members of the topic (the value of the outer loop)", fd.Name.Name)
+	}
+	inner := directRanges(l2.Body)
+	if len(inner) != 1 {
+		return leanExpr{}, false, fmt.Errorf("%s: expected one partition loop inside the member loop", fd.Name.Name)
+	}
+	l3 := inner[0]
+	parts := objOf(l3.X)
+	if parts == nil {
+		return leanExpr{}, false, fmt.Errorf("%s: the partition loop does not range over a local", fd.Name.Name)
+	}
+	if a, ok := parts.Decl.(*ast.AssignStmt); !ok || len(a.Rhs) != 1 || !calls(a.Rhs[0], "findPartitions") {
+		return leanExpr{}, false, fmt.Errorf("%s: the partition loop does not range over findPartitions(…)", fd.Name.Name)
+	}
+	if len(l3.Body.List) != 1 {
+		return leanExpr{}, false, fmt.Errorf("%s: the partition loop body is not a single if", fd.Name.Name)
+	}
+	ifs, ok := l3.Body.List[0].(*ast.IfStmt)
+	if !ok || ifs.Init != nil || ifs.Else != nil {
+		return leanExpr{}, false, fmt.Errorf("%s: the partition loop body is not a plain if", fd.Name.Name)
+	}
+	r := newResolver()
+	r.singleDefs(fd)
+	if o := objOf(l2.Key); o != nil {
+		r.role[o] = "memberIndex"
+	}
+	if o := objOf(l3.Key); o != nil {
+		r.role[o] = "partitionIndex"
+	}
+	if o := objOf(l3.Value); o != nil {
+		r.role[o] = "partitionValue"
+	}
+	r.lenRole[sub] = "memberCount"
+	r.lenRole[parts] = "partitionCount"
+	c, err := r.toLean(ifs.Cond)
 	if err != nil {
-		return err
+		return c, false, fmt.Errorf("%s: %v", fd.Name.Name, err)
 	}
-	var sb strings.Builder
-	sb.WriteString("-- GENERATED by /verif/go/extract (groupbalancer) from /repo/groupbalancer.go — do not edit\n")
-	sb.WriteString("namespace KV.Gen.GroupBalancer\n")
-	emit := func(name string, e ast.Expr, what string) error {
-		if e == nil {
-			return fmt.Errorf("%s: not found in groupbalancer.go", what)
-		}
-		le, err := toLean(e)
-		if err != nil {
-			return fmt.Errorf("%s: %v", what, err)
-		}
-		ty := "Nat"
-		if le.isBool {
-			ty = "Bool"
-		}
-		args := ""
-		if len(le.vars) > 0 {
-			args = " (" + strings.Join(le.vars, " ") + " : Nat)"
-		}
-		fmt.Fprintf(&sb, "/-- %s -/\ndef %s%s : %s := %s\n", what, name, args, ty, le.text)
-		return nil
-	}
-	one := func(es []ast.Expr) ast.Expr {
-		if len(es) == 1 {
-			return es[0]
-		}
-		return nil
-	}
-	rg := funcNamed(f, "RangeGroupBalancer", "AssignGroups")
-	rr := funcNamed(f, "RoundRobinGroupBalancer", "AssignGroups")
-	fm := funcNamed(f, "", "findMembersByTopic")
-	at := funcNamed(f, "RackAffinityGroupBalancer", "assignTopic")
-	if rg == nil || rr == nil || fm == nil || at == nil {
-		return fmt.Errorf("a balancer function is missing from groupbalancer.go")
-	}
-	if err := emit("rangeMin", firstDefine(rg, "minIndex"), "RangeGroupBalancer.AssignGroups: minIndex :="); err != nil {
-		return err
-	}
-	if err := emit("rangeMax", firstDefine(rg, "maxIndex"), "RangeGroupBalancer.AssignGroups: maxIndex :="); err != nil {
-		return err
-	}
-	if err := emit("rangeCond", one(ifConds(rg, "partitionIndex")), "RangeGroupBalancer.AssignGroups: the only `if` on partitionIndex"); err != nil {
-		return err
-	}
-	if err := emit("rrCond", one(ifConds(rr, "partitionIndex")), "RoundRobinGroupBalancer.AssignGroups: the only `if` on partitionIndex"); err != nil {
-		return err
-	}
-	// the comparator passed to sort.Slice
-	var less ast.Expr
-	nLits := 0
-	ast.Inspect(fm.Body, func(n ast.Node) bool {
-		if fl, ok := n.(*ast.FuncLit); ok {
-			nLits++
-			if len(fl.Body.List) == 1 {
-				if r, ok := fl.Body.List[0].(*ast.ReturnStmt); ok && len(r.Results) == 1 {
-					less = r.Results[0]
-				}
+	// the guarded statement appends the partition VALUE of this iteration
+	appendsValue := false
+	if len(ifs.Body.List) == 1 {
+		if a, ok := ifs.Body.List[0].(*ast.AssignStmt); ok && len(a.Rhs) == 1 {
+			if call, ok := a.Rhs[0].(*ast.CallExpr); ok && calls(call, "append") && len(call.Args) == 2 && objOf(call.Args[1]) == objOf(l3.Value) && objOf(l3.Value) != nil {
+				appendsValue = true
 			}
 		}
-		return true
-	})
-	if nLits != 1 {
-		less = nil
 	}
-	if err := emit("sortLess", less, "findMembersByTopic: the comparator given to sort.Slice"); err != nil {
-		return err
-	}
-	if err := emit("rackTarget", firstDefine(at, "targetPerMember"), "assignTopic: targetPerMember :="); err != nil {
-		return err
-	}
-	if err := emit("rackRemainder", firstDefine(at, "remainder"), "assignTopic: remainder :="); err != nil {
-		return err
-	}
-	if err := emit("rackPartsPerMember", firstDefine(at, "partsPerMember"), "assignTopic: partsPerMember :="); err != nil {
-		return err
-	}
-	// the caps inside the zone loop, in source order
-	caps := map[string]string{}
-	ast.Inspect(at.Body, func(n ast.Node) bool {
-		if s, ok := n.(*ast.IfStmt); ok && s.Init == nil && len(s.Body.List) == 1 {
-			if a, ok := s.Body.List[0].(*ast.AssignStmt); ok && a.Tok == token.ASSIGN && len(a.Lhs) == 1 && len(a.Rhs) == 1 {
-				l, ok1 := atomName(a.Lhs[0])
-				r, ok2 := atomName(a.Rhs[0])
-				if c, err := toLean(s.Cond); err == nil && ok1 && ok2 {
-					caps[l+"<-"+r] = c.text + " -- vars: " + strings.Join(c.vars, " ")
-					name := "cap_" + l + "_" + r
-					fmt.Fprintf(&sb, "/-- assignTopic: `if … { %s = %s }` -/\ndef %s (%s : Nat) : Bool := %s\n", l, r, name, strings.Join(c.vars, " "), c.text)
-				}
+	// no break / continue / return anywhere in the loops, and nothing but the member loop consumes the topic
+	plain := appendsValue && !hasEarlyExit(l1.Body)
+	return c, plain, nil
+}
+
+func emitDef(sb *strings.Builder, name string, params []string, e leanExpr, doc string) {
+	ps := append([]string{}, params...)
+	for _, v := range e.vars { // anything beyond the expected roles becomes an extra parameter (and breaks the theorem)
+		known := false
+		for _, p := range ps {
+			if p == v {
+				known = true
 			}
 		}
-		return true
-	})
-	for _, want := range []string{"partsPerMember<-targetPerMember", "leftover<-remainder", "leftover<-len_consumers"} {
-		if _, ok := caps[want]; !ok {
-			return fmt.Errorf("assignTopic: cap %s not found", want)
+		if !known {
+			ps = append(ps, v)
 		}
 	}
-	// structural facts -----------------------------------------------------------------------------------------
-	// (a) the loops that enter a member under its topics skip a topic the member already listed
-	var guardSites []string
-	for _, site := range []struct {
-		fd   *ast.FuncDecl
-		name string
-	}{{fm, "findMembersByTopic"}, {funcNamed(f, "RackAffinityGroupBalancer", "AssignGroups"), "RackAffinityGroupBalancer.AssignGroups"}} {
-		if site.fd != nil && hasTopicGuard(site.fd) {
-			guardSites = append(guardSites, site.name)
-		}
+	ty := "Nat"
+	if e.isBool {
+		ty = "Bool"
 	}
-	fmt.Fprintf(&sb, "/-- functions whose `for i, t := range m.Topics` loop starts with `if topicListedBefore(m.Topics, i) { continue }` and then appends the member -/\ndef topicGuardSites : List String := [%s]\n", quoteJoin(guardSites))
-	fmt.Fprintf(&sb, "/-- topicListedBefore(topics, i) is `for _, t := range topics[:i] { if t == topics[i] { return true } }; return false` -/\ndef topicListedBeforeIsPrefixSearch : Bool := %v\n", isPrefixSearch(funcNamed(f, "", "topicListedBefore")))
-	// (b) consumergroup.go makeSyncGroupRequestV0: the per-member map is allocated inside the loop over the members
-	cgf, err := parser.ParseFile(fset, filepath.Join(repo, "consumergroup.go"), nil, 0)
-	if err != nil {
-		return err
-	}
-	fmt.Fprintf(&sb, "/-- makeSyncGroupRequestV0: `topics32 := make(map[string][]int32)` is the first statement of the body of `for memberID, topics := range memberAssignments` (a fresh map per member) and is defined nowhere else -/\ndef topics32FreshPerMember : Bool := %v\n", freshPerMember(funcNamed(cgf, "ConsumerGroup", "makeSyncGroupRequestV0")))
-	sb.WriteString("end KV.Gen.GroupBalancer\n")
-	out := filepath.Join(root, "lean", "KafkaVerif", "Gen", "GroupBalancerSel.lean")
-	return os.WriteFile(out, []byte(sb.String()), 0o644)
+	fmt.Fprintf(sb, "/-- %s -/\ndef %s (%s : Nat) : %s := %s\n", doc, name, strings.Join(ps, " "), ty, e.text)
 }
 
 func quoteJoin(xs []string) string {
@@ -319,9 +365,330 @@ func quoteJoin(xs []string) string {
 	return strings.Join(q, ", ")
 }
 
+func extractGroupBalancer(repo, root string) error {
+	fset := token.NewFileSet()
+	f, err := parser.ParseFile(fset, filepath.Join(repo, "groupbalancer.go"), nil, 0)
+	if err != nil {
+		return err
+	}
+	var sb strings.Builder
+	sb.WriteString("-- GENERATED by /verif/go/extract (groupbalancer) from /repo/groupbalancer.go, consumergroup.go — do not edit\n")
+	sb.WriteString("namespace KV.Gen.GroupBalancer\n")
+	rg := funcNamed(f, "RangeGroupBalancer", "AssignGroups")
+	rr := funcNamed(f, "RoundRobinGroupBalancer", "AssignGroups")
+	fm := funcNamed(f, "", "findMembersByTopic")
+	at := funcNamed(f, "RackAffinityGroupBalancer", "assignTopic")
+	ra := funcNamed(f, "RackAffinityGroupBalancer", "AssignGroups")
+	if rg == nil || rr == nil || fm == nil || at == nil || ra == nil {
+		return fmt.Errorf("a balancer function is missing from groupbalancer.go")
+	}
+	selParams := []string{"memberIndex", "partitionIndex", "memberCount", "partitionCount"}
+	var plainLoops []string
+	for _, b := range []struct {
+		fd        *ast.FuncDecl
+		name, doc string
+	}{{rg, "rangeCond", "RangeGroupBalancer.AssignGroups"}, {rr, "rrCond", "RoundRobinGroupBalancer.AssignGroups"}} {
+		c, plain, err := selectionCond(b.fd)
+		if err != nil {
+			return err
+		}
+		emitDef(&sb, b.name, selParams, c, b.doc+": the condition under which member `memberIndex` of the topic's sorted member list is given the listed partition number `partitionIndex` (locals inlined)")
+		if plain {
+			plainLoops = append(plainLoops, b.doc)
+		}
+	}
+	fmt.Fprintf(&sb, "/-- functions of the shape `for topic, SUB := range findMembersByTopic(…) { PARTS := findPartitions(…); for i := range SUB { for j, p := range PARTS { if COND { … = append(…, p) } } } }` without break / continue / return -/\ndef plainSelectionLoops : List String := [%s]\n", quoteJoin(plainLoops))
+
+	// ---- findMembersByTopic: sort.Slice(S, func(i, j) bool { return S[i].F < S[j].F }) for every value S of the returned map
+	less, sortFacts, err := sortComparator(fm)
+	if err != nil {
+		return err
+	}
+	emitDef(&sb, "sortLess", []string{"elem_i_ID", "elem_j_ID"}, less, "findMembersByTopic: the comparator given to sort.Slice; elem_i / elem_j are elements i / j of the very slice being sorted (an element of any other slice is rendered `foreign_…`)")
+	fmt.Fprintf(&sb, "/-- the sorted slice is the value variable of a loop over the map the function returns -/\ndef sortsEveryMapValue : Bool := %v\n", sortFacts)
+
+	// ---- assignTopic arithmetic
+	if err := rackArith(&sb, at); err != nil {
+		return err
+	}
+
+	// ---- structural facts
+	helper := prefixSearchHelper(f)
+	var guardSites []string
+	for _, site := range []struct {
+		fd   *ast.FuncDecl
+		name string
+	}{{fm, "findMembersByTopic"}, {ra, "RackAffinityGroupBalancer.AssignGroups"}} {
+		if helper != "" && hasTopicGuard(site.fd, helper) {
+			guardSites = append(guardSites, site.name)
+		}
+	}
+	fmt.Fprintf(&sb, "/-- functions whose only loop over a member's topic list is `for i, t := range m.Topics { if H(m.Topics, i) { continue }; … = append(…) }` where H(topics, i) is the helper that searches topics[:i] for topics[i] -/\ndef topicGuardSites : List String := [%s]\n", quoteJoin(guardSites))
+	fmt.Fprintf(&sb, "/-- there is exactly one such helper `func H(topics []string, i int) bool { for _, t := range topics[:i] { if t == topics[i] { return true } }; return false }` -/\ndef topicListedBeforeIsPrefixSearch : Bool := %v\n", helper != "")
+	cgf, err := parser.ParseFile(fset, filepath.Join(repo, "consumergroup.go"), nil, 0)
+	if err != nil {
+		return err
+	}
+	fmt.Fprintf(&sb, "/-- makeSyncGroupRequestV0: the map handed to groupAssignment{Topics: …} is made by the first statement of the body of the loop over the assignments parameter (a fresh map per member) and is defined nowhere else -/\ndef topics32FreshPerMember : Bool := %v\n", freshPerMember(funcNamed(cgf, "ConsumerGroup", "makeSyncGroupRequestV0")))
+	sb.WriteString("end KV.Gen.GroupBalancer\n")
+	out := filepath.Join(root, "lean", "KafkaVerif", "Gen", "GroupBalancerSel.lean")
+	return os.WriteFile(out, []byte(sb.String()), 0o644)
+}
+
+// sortComparator finds the single sort.Slice call of the function.
+func sortComparator(fd *ast.FuncDecl) (leanExpr, bool, error) {
+	var call *ast.CallExpr
+	var loop *ast.RangeStmt
+	n := 0
+	var walk func(nd ast.Node, enclosing *ast.RangeStmt)
+	walk = func(nd ast.Node, enclosing *ast.RangeStmt) {
+		ast.Inspect(nd, func(x ast.Node) bool {
+			switch s := x.(type) {
+			case *ast.RangeStmt:
+				walk(s.Body, s)
+				return false
+			case *ast.CallExpr:
+				if sel, ok := s.Fun.(*ast.SelectorExpr); ok && sel.Sel.Name == "Slice" {
+					if p, ok := sel.X.(*ast.Ident); ok && p.Name == "sort" && p.Obj == nil {
+						n++
+						call, loop = s, enclosing
+					}
+				}
+			}
+			return true
+		})
+	}
+	walk(fd.Body, nil)
+	if n != 1 || len(call.Args) != 2 {
+		return leanExpr{}, false, fmt.Errorf("findMembersByTopic: expected exactly one sort.Slice(slice, less)")
+	}
+	sorted := objOf(call.Args[0])
+	fl, ok := call.Args[1].(*ast.FuncLit)
+	if sorted == nil || !ok {
+		return leanExpr{}, false, fmt.Errorf("findMembersByTopic: sort.Slice is not called on a local with a function literal")
+	}
+	var ps []*ast.Object
+	for _, fld := range fl.Type.Params.List {
+		for _, nm := range fld.Names {
+			ps = append(ps, nm.Obj)
+		}
+	}
+	if len(ps) != 2 || len(fl.Body.List) != 1 {
+		return leanExpr{}, false, fmt.Errorf("findMembersByTopic: comparator is not `func(i, j int) bool { return … }`")
+	}
+	ret, ok := fl.Body.List[0].(*ast.ReturnStmt)
+	if !ok || len(ret.Results) != 1 {
+		return leanExpr{}, false, fmt.Errorf("findMembersByTopic: comparator body is not a single return")
+	}
+	r := newResolver()
+	r.role[ps[0]], r.role[ps[1]] = "i", "j"
+	r.elems[sorted] = "elem"
+	c, err := r.toLean(ret.Results[0])
+	if err != nil {
+		return c, false, fmt.Errorf("findMembersByTopic comparator: %v", err)
+	}
+	// the sorted slice is the value of a loop over the returned map
+	everyValue := false
+	if loop != nil && objOf(loop.Value) == sorted {
+		if m := objOf(loop.X); m != nil {
+			ast.Inspect(fd.Body, func(x ast.Node) bool {
+				if rs, ok := x.(*ast.ReturnStmt); ok && len(rs.Results) == 1 && objOf(rs.Results[0]) == m {
+					everyValue = true
+				}
+				return true
+			})
+		}
+	}
+	return c, everyValue, nil
+}
+
+// rackArith extracts the integer arithmetic of assignTopic(members, partitions) over the roles nMembers, nPartitions
+// (lengths of the two parameters), nZoneParts / nZoneConsumers (lengths of the zone loop's value and of the consumers
+// looked up under the zone loop's key), and the locals target / remainder / ppm / leftover recognised by their definitions.
+func rackArith(sb *strings.Builder, at *ast.FuncDecl) error {
+	ps := paramObjs(at)
+	if len(ps) != 2 {
+		return fmt.Errorf("assignTopic: expected (members, partitions)")
+	}
+	r := newResolver()
+	r.lenRole[ps[0]] = "nMembers"
+	r.lenRole[ps[1]] = "nPartitions"
+	// top-level `x := len(partitions) / len(members)` and `% `
+	var target, remainder *ast.Object
+	for _, s := range at.Body.List {
+		a, ok := s.(*ast.AssignStmt)
+		if !ok || a.Tok != token.DEFINE || len(a.Lhs) != 1 || len(a.Rhs) != 1 {
+			continue
+		}
+		b, ok := a.Rhs[0].(*ast.BinaryExpr)
+		if !ok {
+			continue
+		}
+		e, err := r.toLean(b)
+		if err != nil {
+			continue
+		}
+		switch {
+		case b.Op == token.QUO && target == nil:
+			target = objOf(a.Lhs[0])
+			emitDef(sb, "rackTarget", []string{"nPartitions", "nMembers"}, e, "assignTopic: the per-member target")
+		case b.Op == token.REM && remainder == nil:
+			remainder = objOf(a.Lhs[0])
+			emitDef(sb, "rackRemainder", []string{"nPartitions", "nMembers"}, e, "assignTopic: the remainder")
+		}
+	}
+	if target == nil || remainder == nil {
+		return fmt.Errorf("assignTopic: target / remainder definitions not found")
+	}
+	r.role[target], r.role[remainder] = "target", "remainder"
+	// the zone loop: the first top-level range with a key whose body defines the consumers by indexing with that key
+	var zone *ast.RangeStmt
+	var consumers *ast.Object
+	for _, l := range directRanges(at.Body) {
+		k := objOf(l.Key)
+		if k == nil || objOf(l.Value) == nil {
+			continue
+		}
+		for _, s := range l.Body.List {
+			if a, ok := s.(*ast.AssignStmt); ok && a.Tok == token.DEFINE && len(a.Lhs) == 1 && len(a.Rhs) == 1 {
+				if ix, ok := a.Rhs[0].(*ast.IndexExpr); ok && objOf(ix.Index) == k {
+					zone, consumers = l, objOf(a.Lhs[0])
+				}
+			}
+		}
+		if zone != nil {
+			break
+		}
+	}
+	if zone == nil || consumers == nil {
+		return fmt.Errorf("assignTopic: zone loop not found")
+	}
+	r.lenRole[objOf(zone.Value)] = "nZoneParts"
+	r.lenRole[consumers] = "nZoneConsumers"
+	var ppm, leftover *ast.Object
+	var caps []string
+	for _, s := range zone.Body.List {
+		switch x := s.(type) {
+		case *ast.AssignStmt:
+			if x.Tok != token.DEFINE || len(x.Lhs) != 1 || len(x.Rhs) != 1 {
+				continue
+			}
+			e, err := r.toLean(x.Rhs[0])
+			if err != nil {
+				continue
+			}
+			if b, ok := x.Rhs[0].(*ast.BinaryExpr); ok && b.Op == token.QUO && ppm == nil {
+				ppm = objOf(x.Lhs[0])
+				r.role[ppm] = "ppm"
+				emitDef(sb, "rackPartsPerMember", []string{"nZoneParts", "nZoneConsumers"}, e, "assignTopic zone loop: partitions per consumer of the zone before the cap")
+			} else if e.text == "nZoneParts" && leftover == nil && ppm != nil {
+				leftover = objOf(x.Lhs[0])
+				r.role[leftover] = "leftover"
+			}
+		}
+	}
+	if ppm == nil || leftover == nil {
+		return fmt.Errorf("assignTopic: ppm / leftover definitions not found")
+	}
+	// every `if A > B { A = B }` and `if COND { … }` of the zone loop body, in source order, over the roles
+	var visit func(list []ast.Stmt, guard string)
+	visit = func(list []ast.Stmt, guard string) {
+		for _, s := range list {
+			if a, ok := s.(*ast.AssignStmt); ok && a.Tok == token.SUB_ASSIGN && len(a.Lhs) == 1 && len(a.Rhs) == 1 {
+				l, e1 := r.toLean(a.Lhs[0])
+				rh, e2 := r.toLean(a.Rhs[0])
+				if e1 == nil && e2 == nil {
+					caps = append(caps, guard+l.text+" -= "+rh.text)
+				}
+				continue
+			}
+			ifs, ok := s.(*ast.IfStmt)
+			if !ok || ifs.Init != nil {
+				continue
+			}
+			c, err := r.toLean(ifs.Cond)
+			if err != nil {
+				continue
+			}
+			if len(ifs.Body.List) == 1 {
+				if a, ok := ifs.Body.List[0].(*ast.AssignStmt); ok && a.Tok == token.ASSIGN && len(a.Lhs) == 1 && len(a.Rhs) == 1 {
+					l, e1 := r.toLean(a.Lhs[0])
+					rh, e2 := r.toLean(a.Rhs[0])
+					if e1 == nil && e2 == nil {
+						caps = append(caps, guard+"if "+c.text+" then "+l.text+" := "+rh.text)
+						continue
+					}
+				}
+			}
+			if ifs.Else == nil {
+				visit(ifs.Body.List, guard+"under "+c.text+": ")
+			}
+		}
+	}
+	visit(zone.Body.List, "")
+	fmt.Fprintf(sb, "/-- assignTopic zone loop: the caps and the remainder accounting, in source order, over the roles (nZoneParts = len of the zone's partitions, nZoneConsumers = len of the zone's consumers, ppm, leftover, target, remainder) -/\ndef rackCaps : List String := [%s]\n", quoteJoin(caps))
+	return nil
+}
+
+// prefixSearchHelper returns the name of the unique package-level function of the shape
+// func H(topics []string, i int) bool { for _, t := range topics[:i] { if t == topics[i] { return true } }; return false }.
+func prefixSearchHelper(f *ast.File) string {
+	name, n := "", 0
+	for _, d := range f.Decls {
+		if fd, ok := d.(*ast.FuncDecl); ok && fd.Recv == nil && fd.Body != nil && isPrefixSearch(fd) {
+			name = fd.Name.Name
+			n++
+		}
+	}
+	if n != 1 {
+		return ""
+	}
+	return name
+}
+
+func isPrefixSearch(fd *ast.FuncDecl) bool {
+	ps := paramObjs(fd)
+	if len(ps) != 2 || len(fd.Body.List) != 2 {
+		return false
+	}
+	rs, ok := fd.Body.List[0].(*ast.RangeStmt)
+	ret, ok2 := fd.Body.List[1].(*ast.ReturnStmt)
+	if !ok || !ok2 || len(ret.Results) != 1 || len(rs.Body.List) != 1 {
+		return false
+	}
+	if id, _ := ret.Results[0].(*ast.Ident); id == nil || id.Name != "false" || id.Obj != nil {
+		return false
+	}
+	sl, ok := rs.X.(*ast.SliceExpr)
+	val := objOf(rs.Value)
+	if !ok || val == nil || sl.Low != nil || sl.Max != nil || objOf(sl.X) != ps[0] || objOf(sl.High) != ps[1] {
+		return false
+	}
+	ifs, ok := rs.Body.List[0].(*ast.IfStmt)
+	if !ok || ifs.Init != nil || ifs.Else != nil || len(ifs.Body.List) != 1 {
+		return false
+	}
+	r2, ok := ifs.Body.List[0].(*ast.ReturnStmt)
+	if !ok || len(r2.Results) != 1 {
+		return false
+	}
+	if id, _ := r2.Results[0].(*ast.Ident); id == nil || id.Name != "true" || id.Obj != nil {
+		return false
+	}
+	b, ok := ifs.Cond.(*ast.BinaryExpr)
+	if !ok || b.Op != token.EQL {
+		return false
+	}
+	isElem := func(e ast.Expr) bool {
+		ix, ok := e.(*ast.IndexExpr)
+		return ok && objOf(ix.X) == ps[0] && objOf(ix.Index) == ps[1]
+	}
+	return (objOf(b.X) == val && isElem(b.Y)) || (objOf(b.Y) == val && isElem(b.X))
+}
+
 // hasTopicGuard: the function has exactly one `for i, t := range X.Topics` loop, whose body is
-// `if topicListedBefore(X.Topics, i) { continue }` followed by one append assignment.
-func hasTopicGuard(fd *ast.FuncDecl) bool {
+// `if helper(X.Topics, i) { continue }` followed by one append assignment.
+func hasTopicGuard(fd *ast.FuncDecl, helper string) bool {
 	n, ok := 0, false
 	ast.Inspect(fd.Body, func(nd ast.Node) bool {
 		rs, isRange := nd.(*ast.RangeStmt)
@@ -333,8 +700,8 @@ func hasTopicGuard(fd *ast.FuncDecl) bool {
 			return true
 		}
 		n++
-		key, _ := rs.Key.(*ast.Ident)
-		if key == nil || key.Name == "_" || len(rs.Body.List) != 2 {
+		key := objOf(rs.Key)
+		if key == nil || len(rs.Body.List) != 2 {
 			return true
 		}
 		ifs, isIf := rs.Body.List[0].(*ast.IfStmt)
@@ -343,72 +710,44 @@ func hasTopicGuard(fd *ast.FuncDecl) bool {
 		}
 		br, isBr := ifs.Body.List[0].(*ast.BranchStmt)
 		call, isCall := ifs.Cond.(*ast.CallExpr)
-		if !isBr || br.Tok != token.CONTINUE || !isCall || len(call.Args) != 2 {
+		if !isBr || br.Tok != token.CONTINUE || !isCall || len(call.Args) != 2 || !calls(call, helper) {
 			return true
 		}
-		fn, _ := call.Fun.(*ast.Ident)
-		a0, ok0 := atomName(call.Args[0])
-		x0, okx := atomName(rs.X)
-		a1, _ := call.Args[1].(*ast.Ident)
-		if fn == nil || fn.Name != "topicListedBefore" || !ok0 || !okx || a0 != x0 || a1 == nil || a1.Name != key.Name {
+		a0, isSel0 := call.Args[0].(*ast.SelectorExpr)
+		if !isSel0 || a0.Sel.Name != "Topics" || objOf(a0.X) == nil || objOf(a0.X) != objOf(sel.X) || objOf(call.Args[1]) != key {
 			return true
 		}
-		as, isAs := rs.Body.List[1].(*ast.AssignStmt)
-		if isAs && len(as.Rhs) == 1 {
-			if c, isC := as.Rhs[0].(*ast.CallExpr); isC {
-				if id, _ := c.Fun.(*ast.Ident); id != nil && id.Name == "append" {
-					ok = true
-				}
-			}
+		if as, isAs := rs.Body.List[1].(*ast.AssignStmt); isAs && len(as.Rhs) == 1 && calls(as.Rhs[0], "append") {
+			ok = true
 		}
 		return true
 	})
 	return n == 1 && ok
 }
 
-func isPrefixSearch(fd *ast.FuncDecl) bool {
-	if fd == nil || len(fd.Body.List) != 2 || fd.Type.Params == nil || len(fd.Type.Params.List) != 2 {
-		return false
-	}
-	ts, i := fd.Type.Params.List[0].Names[0].Name, fd.Type.Params.List[1].Names[0].Name
-	rs, ok := fd.Body.List[0].(*ast.RangeStmt)
-	ret, ok2 := fd.Body.List[1].(*ast.ReturnStmt)
-	if !ok || !ok2 || len(ret.Results) != 1 || len(rs.Body.List) != 1 {
-		return false
-	}
-	if id, _ := ret.Results[0].(*ast.Ident); id == nil || id.Name != "false" {
-		return false
-	}
-	sl, ok := rs.X.(*ast.SliceExpr)
-	val, _ := rs.Value.(*ast.Ident)
-	if !ok || val == nil || sl.Low != nil || sl.Max != nil {
-		return false
-	}
-	if x, _ := sl.X.(*ast.Ident); x == nil || x.Name != ts {
-		return false
-	}
-	if h, _ := sl.High.(*ast.Ident); h == nil || h.Name != i {
-		return false
-	}
-	ifs, ok := rs.Body.List[0].(*ast.IfStmt)
-	if !ok || ifs.Init != nil || ifs.Else != nil || len(ifs.Body.List) != 1 {
-		return false
-	}
-	r2, ok := ifs.Body.List[0].(*ast.ReturnStmt)
-	if !ok || len(r2.Results) != 1 {
-		return false
-	}
-	if id, _ := r2.Results[0].(*ast.Ident); id == nil || id.Name != "true" {
-		return false
-	}
-	c, err := toLean(ifs.Cond)
-	return err == nil && c.text == "("+val.Name+" == "+ts+"_"+i+")"
-}
-
-// freshPerMember: in makeSyncGroupRequestV0 the only definition of topics32 is the first statement of the body of the
-// range over memberAssignments.
+// freshPerMember: in makeSyncGroupRequestV0 the map given to the composite literal's Topics field is defined exactly
+// once, by `:= make(…)` as the first statement of the body of the loop over the assignments PARAMETER.
 func freshPerMember(fd *ast.FuncDecl) bool {
 	if fd == nil {
+		return false
+	}
+	params := map[*ast.Object]bool{}
+	for _, o := range paramObjs(fd) {
+		params[o] = true
+	}
+	// the map used as Topics: …
+	var topics *ast.Object
+	nLit := 0
+	ast.Inspect(fd.Body, func(nd ast.Node) bool {
+		if kv, ok := nd.(*ast.KeyValueExpr); ok {
+			if k, ok := kv.Key.(*ast.Ident); ok && k.Name == "Topics" {
+				nLit++
+				topics = objOf(kv.Value)
+			}
+		}
+		return true
+	})
+	if nLit != 1 || topics == nil {
 		return false
 	}
 	defs, inLoopFirst := 0, false
@@ -416,26 +755,15 @@ func freshPerMember(fd *ast.FuncDecl) bool {
 		switch x := nd.(type) {
 		case *ast.AssignStmt:
 			for _, l := range x.Lhs {
-				if id, _ := l.(*ast.Ident); id != nil && id.Name == "topics32" {
-					defs++
-				}
-			}
-		case *ast.ValueSpec:
-			for _, nm := range x.Names {
-				if nm.Name == "topics32" {
+				if objOf(l) == topics {
 					defs++
 				}
 			}
 		case *ast.RangeStmt:
-			if id, _ := x.X.(*ast.Ident); id != nil && id.Name == "memberAssignments" && len(x.Body.List) > 0 {
-				if a, ok := x.Body.List[0].(*ast.AssignStmt); ok && a.Tok == token.DEFINE && len(a.Lhs) == 1 && len(a.Rhs) == 1 {
-					l, _ := a.Lhs[0].(*ast.Ident)
-					c, _ := a.Rhs[0].(*ast.CallExpr)
-					if l != nil && l.Name == "topics32" && c != nil {
-						if mk, _ := c.Fun.(*ast.Ident); mk != nil && mk.Name == "make" {
-							inLoopFirst = true
-						}
-					}
+			if params[objOf(x.X)] && len(x.Body.List) > 0 {
+				if a, ok := x.Body.List[0].(*ast.AssignStmt); ok && a.Tok == token.DEFINE && len(a.Lhs) == 1 && len(a.Rhs) == 1 &&
+					objOf(a.Lhs[0]) == topics && calls(a.Rhs[0], "make") {
+					inLoopFirst = true
 				}
 			}
 		}
